@@ -1,8 +1,83 @@
 package main
 
 import (
+	"bufio"
+	"encoding/json"
+	"flag"
 	"fmt"
-	"github.com/asticode/go-astits"
+	"os"
 )
 
-func main() { fmt.Println(astits.MpegTsPacketSize) }
+// harness <cmd> [flags]
+//   gen  -family F -n N -seed S [-max M] -out scenarios.ndjson     seeded random scenarios
+//   run  -family F -in scenarios.ndjson -out trace.ndjson            drive the real code, record the trace
+func main() {
+	if len(os.Args) < 2 {
+		fatal("usage: harness gen|run ...")
+	}
+	cmd := os.Args[1]
+	fs := flag.NewFlagSet(cmd, flag.ExitOnError)
+	family := fs.String("family", "", "scenario family")
+	in := fs.String("in", "", "input ndjson")
+	out := fs.String("out", "", "output ndjson")
+	n := fs.Int("n", 10, "number of scenarios")
+	seed := fs.Uint64("seed", 1, "seed")
+	max := fs.Int("max", 30, "size bound")
+	opt := fs.String("opt", "", "family-specific option")
+	fs.Parse(os.Args[2:])
+	switch cmd {
+	case "gen":
+		f, err := os.Create(*out)
+		if err != nil {
+			fatal("create %s: %v", *out, err)
+		}
+		w := bufio.NewWriterSize(f, 1<<20)
+		emit := func(v interface{}) {
+			b, err := json.Marshal(v)
+			if err != nil {
+				fatal("marshal scenario: %v", err)
+			}
+			w.Write(b)
+			w.WriteByte('\n')
+		}
+		gen(*family, *seed, *n, *max, *opt, emit)
+		w.Flush()
+		f.Close()
+	case "run":
+		rec := newRecorder(*out)
+		cnt := 0
+		readNDJSON(*in, func(line []byte) {
+			run(*family, line, rec, *opt)
+			cnt++
+		})
+		rec.close()
+		fmt.Printf("RUN family=%s scenarios=%d events=%d\n", *family, cnt, rec.n)
+	default:
+		fatal("unknown command %q", cmd)
+	}
+}
+
+func gen(family string, seed uint64, n, max int, opt string, emit func(interface{})) {
+	switch family {
+	case "mux":
+		genMux(seed, n, max, opt == "demux", emit)
+	default:
+		fatal("gen: unknown family %q", family)
+	}
+}
+
+func run(family string, line []byte, rec *recorder, opt string) {
+	switch family {
+	case "mux":
+		var sc muxScenario
+		if err := json.Unmarshal(line, &sc); err != nil {
+			fatal("bad mux scenario: %v: %s", err, line)
+		}
+		if opt == "demux" {
+			sc.Demux = true
+		}
+		runMux(&sc, rec)
+	default:
+		fatal("run: unknown family %q", family)
+	}
+}
